@@ -38,7 +38,8 @@ REGISTRY = {
         "theorems": [(A + "NoCrashThm", "Api.C03_no_crashU"), (A + "NoCrashThm", "Api.no_crashU"), (A + "NoCrashThm", "Api.nc_unionSel"),
                      (A + "CoerceUnionThm", "Api.no_crashC"), (A + "CoerceUnionThm", "Api.coerce_nc"),
                      (A + "NoCrashThm", "Api.C03_no_crash"), (A + "NoCrashThm", "Api.C03_no_crash_json"), (A + "NoCrashThm", "Api.no_crash"),
-                     (A + "NoCrashThm", "Api.jsonX_of_json"), (A + "NoCrashThm", "Api.C03_crash_counterexamples")],
+                     (A + "NoCrashThm", "Api.jsonX_of_json"), (A + "NoCrashThm", "Api.C03_crash_counterexamples"),
+                     (A + "RecLockThm", "Api.Rec.memo_keyed_by_default_conversion"), (A + "RecMemoThm", "Api.Rec.memo_history_invisible"), (A + "RecMemoThm", "Api.Rec.shared_memo_counterexample")],
         "partial": "no-crash proved in strict mode on Ty.accU (unions of any shape at any depth) without uniqueItems for every datum of Py.jsonX: JSON containers with string keys whose leaves may be "
                    "any object that is not an instance of the JSON classes (tuples, bytes, ...), and likewise for the tree built with the default coercer (no_crashC); non-string keys, JSON-class subclasses and purity "
                    "(input not modified) are decided by the correspondence / harness only",
@@ -224,7 +225,7 @@ REGISTRY["C19"] = {
 
 REGISTRY["C20"] = {
     "engine": "engine_rec",
-    "theorems": [(A + "RecLockThm", "Api.Rec.lock_is_global"), (A + "Rec", "Api.Rec.race_counterexample"), (A + "Rec", "Api.Rec.seq_ok"), (A + "Rec", "Api.Rec.C20_mutex"),
+    "theorems": [(A + "RecLockThm", "Api.Rec.lock_is_global"), (A + "RecLockThm", "Api.Rec.memo_keyed_by_default_conversion"), (A + "RecMemoThm", "Api.Rec.memo_per_context"), (A + "Rec", "Api.Rec.race_counterexample"), (A + "Rec", "Api.Rec.seq_ok"), (A + "Rec", "Api.Rec.C20_mutex"),
                  (A + "Rec", "Api.Rec.lockInv_run"), (A + "Rec", "Api.Rec.C20_locked_racy_schedule_ok")],
     "partial": "the interleaving model covers the recursion analysis (the shared recursion cache): a race counterexample for the unsynchronised protocol and "
                "mutual exclusion of the locked protocol for every graph and schedule; DFS correctness of a sequential analysis, the lru_cache fills, RecMethod / "
